@@ -137,6 +137,9 @@ def build_source(spec, env):
         if len(spec) > 3 and isinstance(spec[3], dict) and spec[3].get("preused"):
             # the object has served as the FROM source of an earlier statement, which gave it its automatic alias (sq0) - a documented side effect
             P.Query.from_(q)
+            if spec[3].get("derived"):
+                # ... and a further builder was derived from it afterwards (it is a copy: what it inherits of that alias is the question)
+                q = q.where(P.Field("k1") > 0)
         return q
     if kind == "cte":
         return P.AliasedQuery(spec[1])
